@@ -216,9 +216,10 @@ func loadThroughConfig(text []byte) (*seccomp.Policy, error) {
 }
 
 // cmdConfig:
-//   Y id le arch <hex yaml text>        -> "Y id <compile result of the policy loaded from the text>"
-//   M id le arch <policy tokens>        -> "M id mem=<..> ## yaml=<..> ## json=<..>" (in-memory policy; marshalled with
-//                                          yaml.v2 / encoding/json and read back through the configuration path)
+//
+//	Y id le arch <hex yaml text>        -> "Y id <compile result of the policy loaded from the text>"
+//	M id le arch <policy tokens>        -> "M id mem=<..> ## yaml=<..> ## json=<..>" (in-memory policy; marshalled with
+//	                                       yaml.v2 / encoding/json and read back through the configuration path)
 func cmdConfig() {
 	w := bufio.NewWriterSize(os.Stdout, 1<<20)
 	defer w.Flush()
